@@ -961,11 +961,33 @@ Definition C07_exclusive_after (c : ccfg) (r : round) : option string :=
   | _, _ => None
   end.
 
+(* "progressing: updating Kind name" names the one child this sync moved: a request for a child of that kind and
+   name (its update, its delete, or its creation) was made in this sync; a move that changes nothing is no progress *)
+Definition C07_progress_is_real (c : ccfg) (r : round) : option string :=
+  match k_parent (r_cache r) with
+  | None => None
+  | Some parent =>
+      match status_write_cond c parent (r_events r) with
+      | Some cond =>
+          if negb (String.eqb (cond_field cond "reason") "RolloutProgressing") then None else
+          let msg := cond_field cond "message" in
+          if existsb (fun e => match is_api e with
+                               | Some q => match child_res_of c q with
+                                           | Some kc => is_write q &&
+                                                        String.eqb msg ("updating " ++ ch_kind kc ++ " " ++ q_name q)%string
+                                           | None => false end
+                               | None => false end) (after_hook (r_events r))
+          then None
+          else if str_prefix "updating " msg then Some "progress-reported-for-a-child-this-sync-did-not-touch" else None
+      | None => None
+      end
+  end.
+
 Definition C07_check := check_with (fun c r =>
   orelse (C07_round c r) (orelse (C07_condition c r) (orelse (C08_no_wait_on_healthy c r)
          (orelse (C07_views c r) (orelse (C07_complete c r)
          (* every other child keeps following the revision it is assigned to *)
-         (orelse (C09_child_follows_its_revision c r) (C07_exclusive_after c r))))))) proj_all true.
+         (orelse (C09_child_follows_its_revision c r) (orelse (C07_exclusive_after c r) (C07_progress_is_real c r)))))))) proj_all true.
 (* after any crash cut or revision-write fault the rollout still ends where an uninterrupted one does *)
 (* at the end (faults over, a few more syncs done) every rolling child is recorded by at most one revision *)
 Definition C09_final_exclusive (c : ccase) : option string :=
